@@ -379,6 +379,118 @@ def oracle(req, impl):
     return None
 
 
+# ----------------------------------------------------------------------------- K: model vs implementation
+
+def _underflow_only_bound(p, a, b):
+    """The oracle abstains as soon as a power leaves [2^-900, 2^900].  When the only thing that can happen is UNDERFLOW -
+    natural-number exponents, |a|, |b| <= 1 (every power is <= 1 in size, no partial product exceeds its coefficient),
+    moderate coefficients - the request is still inside the statement and the rounding bound still holds, with an absolute
+    slack for the underflowing operations (each loses at most 2^-1074, scaled by the coefficient it is multiplied with).
+    -> the bound on |computed - exact| (Fraction), or None when the situation is not of this kind."""
+    sp = sparse(p)
+    if sp is None or not (finite(a) and finite(b)) or abs(a) > 1 or abs(b) > 1:
+        return None
+    if p[0] == "S":
+        v = own_var(p)
+    else:
+        if len(p[2]) > 1:
+            return None
+        v = p[2][0] if p[2] else "x"
+        if not all_vars(sp) <= {v}:
+            return None
+    if len(sp) > c03.BIG:
+        return None
+    exps = c03.exponents_of(sp, v)
+    if any((not c03.is_int(e)) or e < 0 or e > 70000 for e in exps):
+        return None
+    F = antiderivative(sp, v)
+    if F is None or any(not c03.inrange(c) for c, _ in F) or any(not c03.inrange(c) for c, _ in sp):
+        return None
+    scale = Fraction(0)
+    slack = Fraction(0)
+    for x in (Fraction(a), Fraction(b)):
+        for c, d in F:
+            e = int(d.get(v, 0))
+            # |x| <= 1: x^e = 0 to working accuracy once it is below 2^-1200 (no need to form the huge rational)
+            if x == 0:
+                pw = Fraction(0) if e > 0 else Fraction(1)
+            elif e * (abs(x).numerator.bit_length() - abs(x).denominator.bit_length() + 1) < -1200:
+                pw = Fraction(0)
+            else:
+                pw = abs(x) ** e
+            scale += abs(c) * pw
+            slack += max(abs(c), 1) * (e + 4) * Fraction(1, 2 ** 1073)
+    deg = max([int(e) + 1 for e in exps] + [0])
+    return max(16, 2 * (deg + len(F) + 4)) * U * scale + slack
+
+
+def compare(req, impl, model):
+    """Token-wise as the default rule, except for the VALUES of definite integrals (`analytical`, `additive`, `swap`):
+    the statement promises them "up to rounding", and F(b) - F(a) on a narrow interval cancels, so one rounding more or less
+    in a coefficient of F (c * (1/(p+1)) instead of c / (p+1)) moves the result by far more than 1e-9 of ITSELF while
+    staying inside the rounding bound.  Two values are therefore equal when they differ by at most twice the bound the
+    oracle judges each of them against (`bound_of`: a multiple of u * sum |terms of F at both bounds|, exact rationals).
+    Requests the statement does not cover - a term of power -1, bounds at which F or a power overflows, so that the
+    model's own answer is NaN / infinite - carry no information about a value: any value is accepted against a non-finite
+    model value there (Ok vs Err vs panic is still compared; the KIND of an error is not: the statement names none).  Where the oracle abstains only because a power UNDERFLOWS
+    (bounds next to 0, high powers) the same bound plus an absolute underflow slack is used (`_underflow_only_bound`).  Everything else (polynomials, error kinds, shapes of the
+    answers, finite values outside the oracle's domain) is compared exactly as before."""
+    from __main__ import default_compare
+    d = default_compare(req, c03.strip_err_kinds(impl), c03.strip_err_kinds(model))     # the statement names no error kind
+    if d is None:
+        return None
+    try:
+        t = Toks(req)
+        skip_txt(t)
+        cmd = t.tok()
+        if cmd not in ("analytical", "additive", "swap"):
+            return c03.compare(req, impl, model)      # chains: the final evaluation up to its rounding bound (c03.py)
+        p = read_poly(t)
+        xs = []
+        while not t.done():
+            xs.append(t.flt())
+        si, sm = parse_answer("analytical", impl), parse_answer("analytical", model)
+    except Exception:
+        return d
+    if cmd == "analytical":
+        pairs = [(xs[0], xs[1])]
+    elif cmd == "additive":
+        a, c, b = xs
+        pairs = [(a, c), (c, b), (a, b)]
+    else:
+        a, b = xs
+        pairs = [(a, b), (b, a)]
+    if len(si) != len(pairs) or len(sm) != len(pairs):
+        return d
+    for n, ((a, b), x, y) in enumerate(zip(pairs, si, sm)):
+        if x[0] != y[0]:
+            return f"integral {n}: impl {x[0]} model {y[0]}"
+        if x[0] == "err":
+            continue
+        if x[0] != "val":
+            continue
+        gi, gm = x[1], y[1]
+        if gi == gm or (gi != gi and gm != gm):
+            continue
+        if not finite(gm):
+            continue                       # outside the domain of the statement (see above)
+        if finite(gi) and abs(gi - gm) <= 1e-9 * max(abs(gi), abs(gm), 1e-300):
+            continue                       # the default rule for float tokens
+        ex = exact_integral(p, a, b)
+        if ex is not None and finite(gi):
+            tol = 2 * bound_of(ex)
+        else:
+            tol = _underflow_only_bound(p, a, b) if finite(gi) else None
+            if tol is None:
+                return f"integral {n} over ({a!r}, {b!r}): impl {gi!r} model {gm!r}"
+            tol = 2 * tol
+        diff = abs(Fraction(gi) - Fraction(gm))
+        if diff > tol:
+            return (f"integral {n} over ({a!r}, {b!r}): impl {gi!r} model {gm!r} differ by {float(diff):.3e} > twice the "
+                    f"rounding bound {float(tol):.3e}")
+    return None
+
+
 # ----------------------------------------------------------------------------- evidence helpers
 
 def nontrivial(req, model):
